@@ -33,6 +33,7 @@ type crashT struct {
 	Land      bool `json:"land"`
 	Transient bool `json:"transient"` // a single failed store write (the process goes on) instead of a crash
 	NoRetry   bool `json:"no_retry"`  // the interrupted operation is not retried (leftovers accumulate)
+	FromEnd   int  `json:"from_end,omitempty"` // pinned cases: crash index = W - FromEnd
 }
 
 type opT struct {
@@ -477,6 +478,9 @@ func (w *world) step(i int, op opT, enumerate bool) (sigs []string, err error) {
 		}
 	}
 	n := 1 + op.Crash.Sel%W
+	if op.Crash.FromEnd > 0 && W-op.Crash.FromEnd >= 1 {
+		n = W - op.Crash.FromEnd
+	}
 	ci := &crashInfo{w: W, n: n, land: op.Crash.Land, transient: transient}
 	if _, _, err := run(w, ci, bundleID); err != nil {
 		return nil, err
@@ -571,6 +575,24 @@ func TestRegressLeftoverSortsLast(t *testing.T) {
 	}
 	// find the crash index that lands the file list but not the descriptor: enumerate all
 	if _, err := runHistory(ops, true); err != nil {
+		t.Fatalf("%v", err)
+	}
+}
+
+// TestRegressConsecutiveLeftovers pins: several interrupted, never retried uploads in a row whose IDs all
+// sort after the last committed bundle (each died after its index file landed, before the descriptor)
+func TestRegressConsecutiveLeftovers(t *testing.T) {
+	file := func(p string, seed uint64) hx.TreeSpec {
+		return hx.TreeSpec{Leaf: 4096, Files: []hx.FileSpec{{Path: p, Content: hx.ContentSpec{Leaf: 4096, Size: 10, Seed: seed}}}}
+	}
+	ops := []opT{
+		{Kind: "upload", Tree: file("a", 1), EPF: 1000, IDSec: 10},
+		{Kind: "upload", Tree: file("b", 2), EPF: 1000, IDSec: 40, Crash: &crashT{Land: true, NoRetry: true, FromEnd: 1}},
+		{Kind: "upload", Tree: file("c", 3), EPF: 1000, IDSec: 50, Crash: &crashT{Land: true, NoRetry: true, FromEnd: 1}},
+		{Kind: "upload", Tree: file("d", 4), EPF: 1, IDSec: 55, Crash: &crashT{Land: true, NoRetry: true, FromEnd: 1}},
+		{Kind: "label", Label: "l1", Target: 0},
+	}
+	if _, err := runHistory(ops, false); err != nil {
 		t.Fatalf("%v", err)
 	}
 }
